@@ -133,7 +133,7 @@ func c01Opts(r *RNG, quick bool) GenOpts {
 		TryDefer: r.Chance(45), Pipes: r.Chance(40), Sets: r.Chance(40)}
 }
 
-var c01TraceShrunk int
+var c01TraceShrunk, c01CompareShrunk int
 
 func runC01(e *Env) {
 	e.R.Rule = "programs from the structured generator over the core grammar (statement forms x expression forms, size budget 40-300 nodes " +
@@ -463,7 +463,15 @@ func c01Compare(e *Env, p *N, src, goOut, model string) {
 		return f[0]
 	}
 	wantG, wantM := cls(goOut), cls(model)
+	// Shrinking re-evaluates every candidate on both sides.  Against a change that breaks a common
+	// construct hundreds of programs disagree: the first four are shrunk (each within 25 s), the rest
+	// are reported as generated, so that the check stays within minutes.
+	c01CompareShrunk++
+	deadline := time.Now().Add(25 * time.Second)
 	small := Shrink(p, func(q *N) bool {
+		if c01CompareShrunk > 4 || time.Now().After(deadline) {
+			return false
+		}
 		g := goOutcome(EvalSrc(Src(q), 2*time.Second))
 		if cls(g) != wantG {
 			return false
